@@ -199,6 +199,12 @@ func TestC04(t *testing.T) {
 			big.Weights = []sm.W{{Kind: "biginsert", Weight: 3}, {Kind: "bigimport", Weight: 2}}
 			op = big.Draw(rt, s)
 		}
+		if op.Kind == "count" && rapid.Bool().Draw(rt, "count-from-metadata") {
+			// Count without criteria answers from the collection metadata (minus skip, capped by limit)
+			op.Q.Crit = nil
+			sk := rapid.SampledFrom([]int{1, 0, 2, 50}).Draw(rt, "count-skip")
+			op.Q.Skip = &sk
+		}
 		if op.Q != nil && op.Kind != "createbyquery" && rapid.IntRange(0, 11).Draw(rt, "force-bad-literal") == 0 {
 			// invalid input of the query kind: an operand that cannot be normalised
 			op.Q.Crit = &cs.Crit{Op: rapid.SampledFrom([]string{"gt", "eq", "in"}).Draw(rt, "badop"), Field: "x", Arg: &cs.Operand{Kind: "bad"}}
